@@ -183,6 +183,18 @@ Definition do_route (t : table) (pend : list str) (p : pkt) : list event * list 
   | _ => (route_ordinary t p, pend)
   end.
 
+(* With requests whose context has ENDED (cancelled, timed out) but whose entry their clean-up
+   has not removed yet ([ended], ids disjoint from [pend] - the table has one entry per id):
+   a response carrying such an id takes the entry away (its channel is closed without a value)
+   and is then routed like any other packet.  Events, live ids left, ended ids left. *)
+Definition do_route_e (t : table) (pend ended : list str) (p : pkt)
+  : list event * list str * list str :=
+  if pending_hit pend p then (fst (do_route t pend p), snd (do_route t pend p), ended)
+  else if pending_hit ended p
+       then (route_ordinary t p, pend,
+             match p with PIQ a _ _ => remove_id (a_id a) ended | _ => ended end)
+       else (route_ordinary t p, pend, ended).
+
 Definition handler_log (ev : list event) : list nat :=
   flat_map (fun e => match e with EHandle i => [i] | _ => [] end) ev.
 Definition replies (ev : list event) : list reply :=
